@@ -415,8 +415,8 @@ func (r *goRender) expr(x ast.Expr) string {
 		case "iff":
 			return "((" + r.expr(e.Args[0]) + ") == (" + r.expr(e.Args[1]) + "))"
 		case "ite":
-			r.fail = "ite in clause"
-			return "false"
+			r.helpers = true
+			return "govcIte(" + r.expr(e.Args[0]) + ", " + r.expr(e.Args[1]) + ", " + r.expr(e.Args[2]) + ")"
 		case "len":
 			return "len(" + r.expr(e.Args[0]) + ")"
 		case "forall", "exists":
@@ -684,6 +684,13 @@ func keysOf(m modelVals) []string {
 var _ = token.NoPos
 
 const replayHelpers = `
+func govcIte[T any](c bool, a, b T) T {
+	if c {
+		return a
+	}
+	return b
+}
+
 var govcBufCache = map[any][]any{}
 
 func govcIsNil(x any) bool {
